@@ -1,23 +1,25 @@
 /-
   Property C18 — areal conversion encloses the source value (uncertainty-bit semantics).
 
-  Model: `UVerif.Areal.Model.assignF32 / assignF64` (line-by-line transcription of areal_impl.hpp:239-552, parametrised by
-  nbits, es and the block width).  Spec: `UVerif.Areal.encloses` on the exact rational value of the source.
+  Model: `UVerif.Areal.Model.assignF32 / assignF64` (line-by-line transcription of areal_impl.hpp operator=(float) /
+  operator=(double) after the repairs of D13, parametrised by nbits, es and the block width).
+  Spec: `UVerif.Areal.encloses` on the exact rational value of the source.
 
-  Proved here, for EVERY configuration (es ≥ 1, nbits ≥ es + 3, any block width for which the limb store covers nbits) with
-  fbits ≤ 21 (float) / fbits ≤ 50 (double) — the `shiftRight > 0` requirement of the code:
-    C18_encloses_partial_f32 / _f64   finite NORMAL sources with MIN_EXP_SUBNORMAL ≤ exponent ≤ MAX_EXP-1, except the corner
-                                      "exponent = MAX_EXP-1 and the leading fbits fraction bits all ones", are enclosed
-                                      (normal-target branch and subnormal-target branch with its three sticky masks)
-    C18_above_range_f32 / _f64        exponent > MAX_EXP      ↦ (maxpos, ∞) resp. (-∞, maxneg)
-    C18_below_range_f32 / _f64        exponent < MIN_EXP_SUBNORMAL (normal sources) ↦ (0, minpos) resp. (-minpos, -0)
-    C18_specials_f32 / _f64           ±inf ↦ ±inf, the two recognised NaN patterns ↦ NaN, ±0 ↦ ±0
-  False of the pinned code (D13), proved as negations at concrete witnesses:
-    C18_exp_eq_MAX_EXP_counterexample, C18_top_binade_allones_counterexample, C18_nan_payload_counterexample,
-    C18_subnormal_source_counterexample, C18_target_not_narrower_counterexample
-  The full statement is `C18_encloses_full` (a `def … : Prop`); the five counterexamples refute it.
-  Everything at once: `C18_encloses_outside_D13_f32 / _f64` — EVERY float / double (finite, ±0, ±inf, NaN, subnormal, out of
-  range) outside the decidable region `d13RegionF32 / d13RegionF64` is enclosed by its conversion.
+  Proved here, for EVERY configuration (es ≥ 1, nbits ≥ es + 3, nbits ≤ 32 for float / ≤ 64 for double — the width of the
+  word the code assembles the encoding in —, any block width for which the limb store covers nbits) and EVERY relation between the
+  source's and the target's fraction width (target narrower: right shift + sticky mask; as wide or wider: left shift):
+    C18_encloses_full / C18_encloses_full_f64   EVERY float / double bit pattern (finite normal, subnormal, ±0, ±inf, NaN with
+                                      any payload, out of range) is enclosed by its conversion — the property as stated
+    C18_encloses_normal_f32 / _f64    every finite normal source
+    C18_subnormal_source_f32 / _f64   every subnormal source (normalised first)
+    C18_above_range_f32 / _f64        exponent ≥ MAX_EXP      ↦ (maxpos, ∞) resp. (-∞, maxneg)
+    C18_top_binade_allones_f32 / _f64 exponent = MAX_EXP-1 and every bit of the fraction field set ↦ (maxpos, ∞) resp. (-∞, maxneg)
+    C18_below_range_f32 / _f64        exponent < MIN_EXP_SUBNORMAL ↦ (0, minpos) resp. (-minpos, -0)
+    C18_specials_f32 / _f64           ±inf ↦ ±inf, EVERY NaN payload ↦ NaN, ±0 ↦ ±0
+  History: the pinned code was wrong on five input regions (D13: exponent == MAX_EXP, the all-ones corner of the top binade, NaN
+  payloads other than two patterns, subnormal sources, targets not narrower than the source); they were repaired in the library
+  (five `fix:` commits), the former `…_counterexample` theorems are now positive statements at the same witnesses
+  (`C18_*_witness`), `C18_encloses_full` was a refuted `def … : Prop` and is now a theorem.
 -/
 import UVerif.Spec.Areal
 import UVerif.Model.Areal
@@ -31,49 +33,33 @@ set_option linter.unnecessarySeqFocus false
 
 open UVerif UVerif.Areal UVerif.ArealLemmas
 
-/-- C18 for float sources: every finite NORMAL float whose unbiased exponent e satisfies
-    MIN_EXP_SUBNORMAL ≤ e ≤ MAX_EXP-1, except the all-ones corner of the top binade, is enclosed — for every
-    areal<nbits,es,bt> with fbits ≤ 21 (the code's `shiftRight > 0` requirement) and nbits ≤ 32. -/
-theorem C18_encloses_partial_f32 (c : Model.Cfg) (bc : Nat)
+/-- C18 for float sources: EVERY finite normal float is enclosed — for every areal<nbits,es,bt> with nbits ≤ 32. -/
+theorem C18_encloses_normal_f32 (c : Model.Cfg) (bc : Nat)
     (hes : 1 ≤ c.es) (hn : c.es + 3 ≤ c.nbits) (hw : 1 ≤ c.w) (hW : c.nbits ≤ 32)
-    (hst : c.nrBlocks = 1 ∨ c.nrBlocks ≤ 33 / c.w) (hsr : c.fbits + 1 < 23)
-    (h1 : 1 ≤ (bc >>> 23) % 256) (h2 : (bc >>> 23) % 256 ≤ 254)
-    (hlo : c.MIN_EXP_SUBNORMAL ≤ (((bc >>> 23) % 256 : Nat) : Int) - 127)
-    (hhi : (((bc >>> 23) % 256 : Nat) : Int) - 127 < c.MAX_EXP)
-    (htop : ¬ ((((bc >>> 23) % 256 : Nat) : Int) - 127 = c.MAX_EXP - 1 ∧
-        (bc % 2 ^ 23) / 2 ^ (23 - c.fbits) = 2 ^ c.fbits - 1)) :
+    (hst : c.nrBlocks = 1 ∨ c.nrBlocks ≤ 33 / c.w)
+    (h1 : 1 ≤ (bc >>> 23) % 256) (h2 : (bc >>> 23) % 256 ≤ 254) :
     encloses (specCfg c)
       (.fin (bc.testBit 31) (dyadic ((bc % 2 ^ 23 + 2 ^ 23 : Nat) : Int) ((((bc >>> 23) % 256 : Nat) : Int) - 127 - 23)))
       (Model.assignF32 c bc) = true := by
   rw [assignF32_normal c bc h1 h2]
-  exact assignCore_encloses c 23 127 32 true _ _ _ hes hn hw hW (by omega) hst hsr
-    (Nat.mod_lt _ (Nat.two_pow_pos _)) h1 hlo hhi htop
+  exact assignCore_encloses_all c 23 32 _ _ _ hes hn hw hW (by omega) hst (Nat.mod_lt _ (Nat.two_pow_pos _))
 
-/-- C18 for double sources (fbits ≤ 50, nbits ≤ 64) -/
-theorem C18_encloses_partial_f64 (c : Model.Cfg) (bc : Nat)
+/-- C18 for double sources: EVERY finite normal double is enclosed (nbits ≤ 64) -/
+theorem C18_encloses_normal_f64 (c : Model.Cfg) (bc : Nat)
     (hes : 1 ≤ c.es) (hn : c.es + 3 ≤ c.nbits) (hw : 1 ≤ c.w) (hW : c.nbits ≤ 64)
-    (hst : c.nrBlocks = 1 ∨ c.nrBlocks ≤ 65 / c.w) (hsr : c.fbits + 1 < 52)
-    (h1 : 1 ≤ (bc >>> 52) % 2048) (h2 : (bc >>> 52) % 2048 ≤ 2046)
-    (hlo : c.MIN_EXP_SUBNORMAL ≤ (((bc >>> 52) % 2048 : Nat) : Int) - 1023)
-    (hhi : (((bc >>> 52) % 2048 : Nat) : Int) - 1023 < c.MAX_EXP)
-    (htop : ¬ ((((bc >>> 52) % 2048 : Nat) : Int) - 1023 = c.MAX_EXP - 1 ∧
-        (bc % 2 ^ 52) / 2 ^ (52 - c.fbits) = 2 ^ c.fbits - 1)) :
+    (hst : c.nrBlocks = 1 ∨ c.nrBlocks ≤ 65 / c.w)
+    (h1 : 1 ≤ (bc >>> 52) % 2048) (h2 : (bc >>> 52) % 2048 ≤ 2046) :
     encloses (specCfg c)
       (.fin (bc.testBit 63) (dyadic ((bc % 2 ^ 52 + 2 ^ 52 : Nat) : Int) ((((bc >>> 52) % 2048 : Nat) : Int) - 1023 - 52)))
       (Model.assignF64 c bc) = true := by
   rw [assignF64_normal c bc h1 h2]
-  exact assignCore_encloses c 52 1023 64 false _ _ _ hes hn hw hW (by omega) hst hsr
-    (Nat.mod_lt _ (Nat.two_pow_pos _)) h1 hlo hhi htop
+  exact assignCore_encloses_all c 52 64 _ _ _ hes hn hw hW (by omega) hst (Nat.mod_lt _ (Nat.two_pow_pos _))
 
--- D13 witnesses (negations at concrete inputs)
-theorem C18_exp_eq_MAX_EXP_counterexample :
-    ¬ encloses ⟨6, 2⟩ (.fin false 8) (Model.assignF32 ⟨6, 2, 8⟩ 0x41000000) = true := by decide
-
-/-- C18, special sources (float): ±inf ↦ ±inf, the two recognised NaN patterns ↦ NaN, ±0 ↦ ±0 -/
+/-- C18, special sources (float): ±inf ↦ ±inf, EVERY NaN ↦ NaN, ±0 ↦ ±0 -/
 theorem C18_specials_f32 (c : Model.Cfg) (hes : 1 ≤ c.es) (hn : c.es + 3 ≤ c.nbits) (bc : Nat) :
     ((bc >>> 23) % 256 = 255 → bc % 2 ^ 23 = 0 →
       encloses (specCfg c) (.inf (bc.testBit 31)) (Model.assignF32 c bc) = true) ∧
-    ((bc >>> 23) % 256 = 255 → (bc % 2 ^ 23 = 1 ∨ bc % 2 ^ 23 = 0x400000) →
+    ((bc >>> 23) % 256 = 255 → bc % 2 ^ 23 ≠ 0 →
       encloses (specCfg c) .nan (Model.assignF32 c bc) = true) ∧
     ((bc >>> 23) % 256 = 0 → bc % 2 ^ 23 = 0 →
       encloses (specCfg c) (.fin (bc.testBit 31) 0) (Model.assignF32 c bc) = true) := by
@@ -84,12 +70,13 @@ theorem C18_specials_f32 (c : Model.Cfg) (hes : 1 ≤ c.es) (hn : c.es + 3 ≤ c
       unfold Model.assignF32; norm_num at h2; simp [h1, h2]
     rw [this]; exact i1
   · intro h1 h2
-    rcases h2 with h2 | h2
+    norm_num at h2
+    by_cases hq : bc % 8388608 &&& 0x400000 = 0
     · have : Model.assignF32 c bc = Model.setnanSignalling c := by
-        unfold Model.assignF32; norm_num at h2; simp [h1, h2]
+        unfold Model.assignF32; simp [h1, h2, hq]
       rw [this]; exact i2
     · have : Model.assignF32 c bc = Model.setnanQuiet c := by
-        unfold Model.assignF32; norm_num at h2; simp [h1, h2]
+        unfold Model.assignF32; simp [h1, h2, hq]
       rw [this]; exact i3
   · intro h1 h2
     have : Model.assignF32 c bc = (if bc.testBit 31 then 2 ^ ((specCfg c).nbits - 1) else 0) := by
@@ -100,7 +87,7 @@ theorem C18_specials_f32 (c : Model.Cfg) (hes : 1 ≤ c.es) (hn : c.es + 3 ≤ c
 theorem C18_specials_f64 (c : Model.Cfg) (hes : 1 ≤ c.es) (hn : c.es + 3 ≤ c.nbits) (bc : Nat) :
     ((bc >>> 52) % 2048 = 2047 → bc % 2 ^ 52 = 0 →
       encloses (specCfg c) (.inf (bc.testBit 63)) (Model.assignF64 c bc) = true) ∧
-    ((bc >>> 52) % 2048 = 2047 → (bc % 2 ^ 52 = 1 ∨ bc % 2 ^ 52 = 0x8000000000000) →
+    ((bc >>> 52) % 2048 = 2047 → bc % 2 ^ 52 ≠ 0 →
       encloses (specCfg c) .nan (Model.assignF64 c bc) = true) ∧
     ((bc >>> 52) % 2048 = 0 → bc % 2 ^ 52 = 0 →
       encloses (specCfg c) (.fin (bc.testBit 63) 0) (Model.assignF64 c bc) = true) := by
@@ -111,36 +98,75 @@ theorem C18_specials_f64 (c : Model.Cfg) (hes : 1 ≤ c.es) (hn : c.es + 3 ≤ c
       unfold Model.assignF64; norm_num at h2; simp [h1, h2]
     rw [this]; exact i1
   · intro h1 h2
-    rcases h2 with h2 | h2
+    norm_num at h2
+    by_cases hq : bc % 4503599627370496 &&& 0x8000000000000 = 0
     · have : Model.assignF64 c bc = Model.setnanSignalling c := by
-        unfold Model.assignF64; norm_num at h2; simp [h1, h2]
+        unfold Model.assignF64; simp [h1, h2, hq]
       rw [this]; exact i2
     · have : Model.assignF64 c bc = Model.setnanQuiet c := by
-        unfold Model.assignF64; norm_num at h2; simp [h1, h2]
+        unfold Model.assignF64; simp [h1, h2, hq]
       rw [this]; exact i3
   · intro h1 h2
     have : Model.assignF64 c bc = (if bc.testBit 63 then 2 ^ ((specCfg c).nbits - 1) else 0) := by
       unfold Model.assignF64 Model.signBit; norm_num at h2; simp [h1, h2, specCfg_nbits]
     rw [this]; exact encloses_zero (specCfg c) hes hn _
 
-/-- C18, sources above the range (float): unbiased exponent > MAX_EXP ↦ the open interval beyond maxpos / maxneg -/
+/-- C18, sources at or above the range (float): unbiased exponent ≥ MAX_EXP ↦ the open interval beyond maxpos / maxneg -/
 theorem C18_above_range_f32 (c : Model.Cfg) (bc : Nat) (hes : 1 ≤ c.es) (hn : c.es + 3 ≤ c.nbits)
     (h1 : 1 ≤ (bc >>> 23) % 256) (h2 : (bc >>> 23) % 256 ≤ 254)
-    (hhi : c.MAX_EXP < (((bc >>> 23) % 256 : Nat) : Int) - 127) :
+    (hhi : c.MAX_EXP ≤ (((bc >>> 23) % 256 : Nat) : Int) - 127) :
+    Model.assignF32 c bc = (if bc.testBit 31 then Model.maxneg c else Model.maxpos c) ||| 1 ∧
     encloses (specCfg c)
       (.fin (bc.testBit 31) (dyadic ((bc % 2 ^ 23 + 2 ^ 23 : Nat) : Int) ((((bc >>> 23) % 256 : Nat) : Int) - 127 - 23)))
       (Model.assignF32 c bc) = true := by
   rw [assignF32_normal c bc h1 h2]
-  exact assignCore_above c 23 127 32 true _ _ _ hes hn hhi
+  refine ⟨?_, assignCore_above c 23 32 _ _ _ hes hn hhi⟩
+  unfold Model.assignCore
+  simp only [ge_iff_le, hhi, if_true]
 
 theorem C18_above_range_f64 (c : Model.Cfg) (bc : Nat) (hes : 1 ≤ c.es) (hn : c.es + 3 ≤ c.nbits)
     (h1 : 1 ≤ (bc >>> 52) % 2048) (h2 : (bc >>> 52) % 2048 ≤ 2046)
-    (hhi : c.MAX_EXP < (((bc >>> 52) % 2048 : Nat) : Int) - 1023) :
+    (hhi : c.MAX_EXP ≤ (((bc >>> 52) % 2048 : Nat) : Int) - 1023) :
+    Model.assignF64 c bc = (if bc.testBit 63 then Model.maxneg c else Model.maxpos c) ||| 1 ∧
     encloses (specCfg c)
       (.fin (bc.testBit 63) (dyadic ((bc % 2 ^ 52 + 2 ^ 52 : Nat) : Int) ((((bc >>> 52) % 2048 : Nat) : Int) - 1023 - 52)))
       (Model.assignF64 c bc) = true := by
   rw [assignF64_normal c bc h1 h2]
-  exact assignCore_above c 52 1023 64 false _ _ _ hes hn hhi
+  refine ⟨?_, assignCore_above c 52 64 _ _ _ hes hn hhi⟩
+  unfold Model.assignCore
+  simp only [ge_iff_le, hhi, if_true]
+
+/-- C18, the all-ones corner of the top binade (float; target not wider than the source): exponent = MAX_EXP-1 and the leading
+    fbits fraction bits all ones ↦ saturation (maxpos, ∞) / (-∞, maxneg), which encloses the source -/
+theorem C18_top_binade_allones_f32 (c : Model.Cfg) (bc : Nat) (hes : 1 ≤ c.es) (hn : c.es + 3 ≤ c.nbits)
+    (hW : c.nbits ≤ 32) (hsr : c.fbits ≤ 23)
+    (h1 : 1 ≤ (bc >>> 23) % 256) (h2 : (bc >>> 23) % 256 ≤ 254)
+    (he : (((bc >>> 23) % 256 : Nat) : Int) - 127 = c.MAX_EXP - 1)
+    (hf : (bc % 2 ^ 23) / 2 ^ (23 - c.fbits) = 2 ^ c.fbits - 1) :
+    Model.assignF32 c bc = (if bc.testBit 31 then Model.maxneg c else Model.maxpos c) ||| 1 ∧
+    encloses (specCfg c)
+      (.fin (bc.testBit 31) (dyadic ((bc % 2 ^ 23 + 2 ^ 23 : Nat) : Int) ((((bc >>> 23) % 256 : Nat) : Int) - 127 - 23)))
+      (Model.assignF32 c bc) = true := by
+  rw [assignF32_normal c bc h1 h2]
+  have hf' : bc % 2 ^ 23 * 2 ^ (c.fbits - 23) / 2 ^ (23 - c.fbits) = 2 ^ c.fbits - 1 := by
+    rw [show c.fbits - 23 = 0 by omega, Nat.pow_zero, Nat.mul_one]; exact hf
+  exact ⟨assignCore_top c 23 32 _ _ _ hes (Nat.mod_lt _ (Nat.two_pow_pos _)) (by unfold Model.Cfg.fbits; omega) he hf',
+    assignCore_top_encloses c 23 32 _ _ _ hes hn hW (Nat.mod_lt _ (Nat.two_pow_pos _)) he hf'⟩
+
+theorem C18_top_binade_allones_f64 (c : Model.Cfg) (bc : Nat) (hes : 1 ≤ c.es) (hn : c.es + 3 ≤ c.nbits)
+    (hW : c.nbits ≤ 64) (hsr : c.fbits ≤ 52)
+    (h1 : 1 ≤ (bc >>> 52) % 2048) (h2 : (bc >>> 52) % 2048 ≤ 2046)
+    (he : (((bc >>> 52) % 2048 : Nat) : Int) - 1023 = c.MAX_EXP - 1)
+    (hf : (bc % 2 ^ 52) / 2 ^ (52 - c.fbits) = 2 ^ c.fbits - 1) :
+    Model.assignF64 c bc = (if bc.testBit 63 then Model.maxneg c else Model.maxpos c) ||| 1 ∧
+    encloses (specCfg c)
+      (.fin (bc.testBit 63) (dyadic ((bc % 2 ^ 52 + 2 ^ 52 : Nat) : Int) ((((bc >>> 52) % 2048 : Nat) : Int) - 1023 - 52)))
+      (Model.assignF64 c bc) = true := by
+  rw [assignF64_normal c bc h1 h2]
+  have hf' : bc % 2 ^ 52 * 2 ^ (c.fbits - 52) / 2 ^ (52 - c.fbits) = 2 ^ c.fbits - 1 := by
+    rw [show c.fbits - 52 = 0 by omega, Nat.pow_zero, Nat.mul_one]; exact hf
+  exact ⟨assignCore_top c 52 64 _ _ _ hes (Nat.mod_lt _ (Nat.two_pow_pos _)) (by unfold Model.Cfg.fbits; omega) he hf',
+    assignCore_top_encloses c 52 64 _ _ _ hes hn hW (Nat.mod_lt _ (Nat.two_pow_pos _)) he hf'⟩
 
 /-- C18, sources below the range (float, normal source): exponent < MIN_EXP_SUBNORMAL ↦ the open interval next to zero -/
 theorem C18_below_range_f32 (c : Model.Cfg) (bc : Nat) (hes : 1 ≤ c.es) (hn : c.es + 3 ≤ c.nbits)
@@ -150,12 +176,7 @@ theorem C18_below_range_f32 (c : Model.Cfg) (bc : Nat) (hes : 1 ≤ c.es) (hn : 
       (.fin (bc.testBit 31) (dyadic ((bc % 2 ^ 23 + 2 ^ 23 : Nat) : Int) ((((bc >>> 23) % 256 : Nat) : Int) - 127 - 23)))
       (Model.assignF32 c bc) = true := by
   rw [assignF32_normal c bc h1 h2]
-  have k := (model_consts c hes)
-  have hE2 : 2 ≤ 2 ^ c.es := by
-    calc 2 = 2 ^ 1 := rfl
-      _ ≤ 2 ^ c.es := Nat.pow_le_pow_right (by omega) hes
-  exact assignCore_below c 23 127 32 true _ _ _ hes hn (Nat.mod_lt _ (Nat.two_pow_pos _))
-    (by obtain ⟨k1, k2, k3⟩ := k; omega) hlo
+  exact assignCore_below c 23 32 _ _ _ hes hn (Nat.mod_lt _ (Nat.two_pow_pos _)) hlo
 
 theorem C18_below_range_f64 (c : Model.Cfg) (bc : Nat) (hes : 1 ≤ c.es) (hn : c.es + 3 ≤ c.nbits)
     (h1 : 1 ≤ (bc >>> 52) % 2048) (h2 : (bc >>> 52) % 2048 ≤ 2046)
@@ -164,232 +185,195 @@ theorem C18_below_range_f64 (c : Model.Cfg) (bc : Nat) (hes : 1 ≤ c.es) (hn : 
       (.fin (bc.testBit 63) (dyadic ((bc % 2 ^ 52 + 2 ^ 52 : Nat) : Int) ((((bc >>> 52) % 2048 : Nat) : Int) - 1023 - 52)))
       (Model.assignF64 c bc) = true := by
   rw [assignF64_normal c bc h1 h2]
-  have k := (model_consts c hes)
-  have hE2 : 2 ≤ 2 ^ c.es := by
-    calc 2 = 2 ^ 1 := rfl
-      _ ≤ 2 ^ c.es := Nat.pow_le_pow_right (by omega) hes
-  exact assignCore_below c 52 1023 64 false _ _ _ hes hn (Nat.mod_lt _ (Nat.two_pow_pos _))
-    (by obtain ⟨k1, k2, k3⟩ := k; omega) hlo
+  exact assignCore_below c 52 64 _ _ _ hes hn (Nat.mod_lt _ (Nat.two_pow_pos _)) hlo
 
-/-! ### the full statement and its refutation (D13) -/
+/-- C18, subnormal float sources (exponent field 0, fraction ≠ 0; value fraction·2^-149): enclosed, whatever the target
+    (flushed to (0, minpos), a target subnormal, or — es ≥ 9 — a target normal number) -/
+theorem C18_subnormal_source_f32 (c : Model.Cfg) (bc : Nat)
+    (hes : 1 ≤ c.es) (hn : c.es + 3 ≤ c.nbits) (hw : 1 ≤ c.w) (hW : c.nbits ≤ 32)
+    (hst : c.nrBlocks = 1 ∨ c.nrBlocks ≤ 33 / c.w)
+    (h0 : (bc >>> 23) % 256 = 0) (hf : bc % 2 ^ 23 ≠ 0) :
+    encloses (specCfg c) (.fin (bc.testBit 31) (dyadic ((bc % 2 ^ 23 : Nat) : Int) (1 - 127 - 23)))
+      (Model.assignF32 c bc) = true := by
+  have hraw : bc % 2 ^ 23 < 2 ^ 23 := Nat.mod_lt _ (Nat.two_pow_pos _)
+  obtain ⟨n1, n2⟩ := normalizeSrc_subnormal 23 127 (bc % 2 ^ 23) hraw (Nat.pos_of_ne_zero hf)
+  have hcore : Model.assignF32 c bc = Model.assignCore c 23 32 (bc.testBit 31)
+      (Model.normalizeSrc 23 127 0 (bc % 2 ^ 23)).1 (Model.normalizeSrc 23 127 0 (bc % 2 ^ 23)).2 := by
+    unfold Model.assignF32
+    have hf' : ¬ bc % 8388608 = 0 := by norm_num at hf; exact hf
+    simp [h0, hf']
+  rw [hcore]
+  have h := assignCore_encloses_all c 23 32 (bc.testBit 31) (Model.normalizeSrc 23 127 0 (bc % 2 ^ 23)).1
+    (Model.normalizeSrc 23 127 0 (bc % 2 ^ 23)).2 hes hn hw hW (by omega) hst n1
+  have n2' : dyadic ((bc % 2 ^ 23 : Nat) : Int) (1 - 127 - 23) =
+      dyadic (((Model.normalizeSrc 23 127 0 (bc % 2 ^ 23)).2 + 2 ^ 23 : Nat) : Int)
+        ((Model.normalizeSrc 23 127 0 (bc % 2 ^ 23)).1 - ((23 : Nat) : Int)) := by
+    simpa using n2
+  rw [n2']; exact h
 
-/-- value of a finite float pattern as the spec source -/
+theorem C18_subnormal_source_f64 (c : Model.Cfg) (bc : Nat)
+    (hes : 1 ≤ c.es) (hn : c.es + 3 ≤ c.nbits) (hw : 1 ≤ c.w) (hW : c.nbits ≤ 64)
+    (hst : c.nrBlocks = 1 ∨ c.nrBlocks ≤ 65 / c.w)
+    (h0 : (bc >>> 52) % 2048 = 0) (hf : bc % 2 ^ 52 ≠ 0) :
+    encloses (specCfg c) (.fin (bc.testBit 63) (dyadic ((bc % 2 ^ 52 : Nat) : Int) (1 - 1023 - 52)))
+      (Model.assignF64 c bc) = true := by
+  have hraw : bc % 2 ^ 52 < 2 ^ 52 := Nat.mod_lt _ (Nat.two_pow_pos _)
+  obtain ⟨n1, n2⟩ := normalizeSrc_subnormal 52 1023 (bc % 2 ^ 52) hraw (Nat.pos_of_ne_zero hf)
+  have hcore : Model.assignF64 c bc = Model.assignCore c 52 64 (bc.testBit 63)
+      (Model.normalizeSrc 52 1023 0 (bc % 2 ^ 52)).1 (Model.normalizeSrc 52 1023 0 (bc % 2 ^ 52)).2 := by
+    unfold Model.assignF64
+    have hf' : ¬ bc % 4503599627370496 = 0 := by norm_num at hf; exact hf
+    simp [h0, hf']
+  rw [hcore]
+  have h := assignCore_encloses_all c 52 64 (bc.testBit 63) (Model.normalizeSrc 52 1023 0 (bc % 2 ^ 52)).1
+    (Model.normalizeSrc 52 1023 0 (bc % 2 ^ 52)).2 hes hn hw hW (by omega) hst n1
+  have n2' : dyadic ((bc % 2 ^ 52 : Nat) : Int) (1 - 1023 - 52) =
+      dyadic (((Model.normalizeSrc 52 1023 0 (bc % 2 ^ 52)).2 + 2 ^ 52 : Nat) : Int)
+        ((Model.normalizeSrc 52 1023 0 (bc % 2 ^ 52)).1 - ((52 : Nat) : Int)) := by
+    simpa using n2
+  rw [n2']; exact h
+
+/-! ### the full statement -/
+
+/-- value of a float pattern as the spec source -/
 def srcOfF32 (bc : Nat) : Src :=
   let e := (bc >>> 23) % 256
   let f := bc % 2 ^ 23
   if e = 255 then (if f = 0 then .inf (bc.testBit 31) else .nan)
   else .fin (bc.testBit 31) (dyadic ((if e = 0 then f else f + 2 ^ 23 : Nat) : Int) (((max e 1 : Nat) : Int) - 127 - 23))
 
-/-- the property as stated: EVERY float is enclosed by its areal conversion (false of the pinned code) -/
-def C18_encloses_full : Prop :=
-  ∀ (c : Model.Cfg) (bc : Nat), 1 ≤ c.es → c.es + 3 ≤ c.nbits → c.nbits ≤ 32 → c.w ∈ [8, 16, 32] → bc < 2 ^ 32 →
-    encloses (specCfg c) (srcOfF32 bc) (Model.assignF32 c bc) = true
-
--- float 7.0 = 1.11b·2^2 into areal<6,2>: exponent 2 = MAX_EXP-1 and both fraction bits set → the +inf pattern 0b011110
-theorem C18_top_binade_allones_counterexample :
-    ¬ encloses ⟨6, 2⟩ (.fin false 7) (Model.assignF32 ⟨6, 2, 8⟩ 0x40e00000) = true := by decide
-
--- NaN with payload 0x200000 (numeric_limits<float>::signaling_NaN) is converted as a number: (maxpos, ∞)
-theorem C18_nan_payload_counterexample :
-    ¬ encloses ⟨6, 2⟩ .nan (Model.assignF32 ⟨6, 2, 8⟩ 0x7fa00000) = true := by decide
-
--- the subnormal float 2^-127 into areal<12,8>: the result is the encoding of 2^-128
-theorem C18_subnormal_source_counterexample :
-    ¬ encloses ⟨12, 8⟩ (srcOfF32 0x00400000) (Model.assignF32 ⟨12, 8, 8⟩ 0x00400000) = true := by decide +kernel
-
--- target fraction as wide as the source (areal<32,8>, fbits = 22): the dropped bit is not reflected in the ubit
-theorem C18_target_not_narrower_counterexample :
-    ¬ encloses ⟨32, 8⟩ (srcOfF32 0x4b000001) (Model.assignF32 ⟨32, 8, 8⟩ 0x4b000001) = true := by decide +kernel
-
-theorem C18_encloses_full_is_false : ¬ C18_encloses_full := by
-  intro h
-  have := h ⟨6, 2, 8⟩ 0x41000000 (by decide) (by decide) (by decide) (by decide) (by decide)
-  revert this
-  decide
-
-/-! ### everything at once: the decidable D13 region and the enclosure outside it -/
-
-/-- the decidable region of float sources on which areal<…>::operator=(float) is known to be wrong (D13) -/
-def d13RegionF32 (c : Model.Cfg) (bc : Nat) : Bool :=
-  let e := (bc >>> 23) % 256
-  let f := bc % 2 ^ 23
-  let exponent : Int := (e : Int) - 127
-  (e == 255 && f != 0 && f != 1 && f != 0x400000) ||                                  -- unrecognised NaN payload
-  (e != 255 && exponent == c.MAX_EXP) ||                                              -- exponent == MAX_EXP
-  (e != 255 && exponent == c.MAX_EXP - 1 && f / 2 ^ (23 - c.fbits) == 2 ^ c.fbits - 1) ||   -- all-ones corner
-  (e == 0 && f != 0 && decide (c.MIN_EXP_SUBNORMAL ≤ exponent))                       -- subnormal source not flushed
-
-/-- C18 for float sources, everything at once: EVERY float outside the decidable D13 region is enclosed by its conversion,
-    for every areal<nbits,es,bt> with fbits ≤ 21, nbits ≤ 32 (specials included: ±0, ±inf, the recognised NaNs). -/
-theorem C18_encloses_outside_D13_f32 (c : Model.Cfg) (bc : Nat)
-    (hes : 1 ≤ c.es) (hn : c.es + 3 ≤ c.nbits) (hw : 1 ≤ c.w) (hW : c.nbits ≤ 32)
-    (hst : c.nrBlocks = 1 ∨ c.nrBlocks ≤ 33 / c.w) (hsr : c.fbits + 1 < 23)
-    (hreg : d13RegionF32 c bc = false) :
-    encloses (specCfg c) (srcOfF32 bc) (Model.assignF32 c bc) = true := by
-  unfold d13RegionF32 at hreg
-  simp only [Bool.or_eq_false_iff, Bool.and_eq_false_iff] at hreg
-  obtain ⟨⟨⟨r1, r2⟩, r3⟩, r4⟩ := hreg
-  obtain ⟨s1, s2, s3⟩ := C18_specials_f32 c hes hn bc
-  unfold srcOfF32
-  have helt : (bc >>> 23) % 256 < 256 := Nat.mod_lt _ (by norm_num)
-  generalize he : (bc >>> 23) % 256 = e at *
-  generalize hf : bc % 2 ^ 23 = f at *
-  by_cases h255 : e = 255
-  · -- inf / NaN
-    simp only [h255, if_true]
-    by_cases hf0 : f = 0
-    · simp only [hf0, if_true]; exact s1 h255 hf0
-    · simp only [hf0, if_false]
-      have : f = 1 ∨ f = 0x400000 := by
-        simp [h255, hf0] at r1
-        exact r1
-      exact s2 h255 this
-  simp only [h255, if_false]
-  by_cases h0 : e = 0
-  · by_cases hf0 : f = 0
-    · -- ±0
-      have := s3 h0 hf0
-      simpa [h0, hf0, dyadic_def] using this
-    · -- subnormal source: must be flushed
-      have hlo : ((0 : Nat) : Int) - 127 < c.MIN_EXP_SUBNORMAL := by
-        simp [h0, hf0] at r4
-        omega
-      have hcore : Model.assignF32 c bc = Model.assignCore c 23 127 32 true (bc.testBit 31) 0 f := by
-        unfold Model.assignF32
-        have hf' : bc % 8388608 = f := by rw [← hf]; norm_num
-        simp [he, hf', h0, hf0]
-      rw [hcore]
-      have k := model_consts c hes
-      have hE2 : 2 ≤ 2 ^ c.es := by
-        calc 2 = 2 ^ 1 := rfl
-          _ ≤ 2 ^ c.es := Nat.pow_le_pow_right (by omega) hes
-      have := assignCore_below_subnormal_src c 23 127 32 true (bc.testBit 31) f hes hn
-        (by rw [← hf]; exact Nat.mod_lt _ (Nat.two_pow_pos _)) (Nat.pos_of_ne_zero hf0)
-        (by obtain ⟨k1, k2, k3⟩ := k; omega) hlo
-      simpa [h0, dyadic_def] using this
-  · -- normal source
-    have h1 : 1 ≤ e := Nat.one_le_iff_ne_zero.mpr h0
-    have h2 : e ≤ 254 := by omega
-    have hmax1 : max e 1 = e := by omega
-    simp only [h0, if_false, hmax1]
-    have hsrc : (((e : Nat) : Int) - 127 - 23) = (((e : Nat) : Int) - 127 - 23) := rfl
-    by_cases habove : c.MAX_EXP < ((e : Nat) : Int) - 127
-    · have := C18_above_range_f32 c bc hes hn (by rw [he]; exact h1) (by rw [he]; exact h2) (by rw [he]; exact habove)
-      rw [he, hf] at this; exact this
-    by_cases hbelow : ((e : Nat) : Int) - 127 < c.MIN_EXP_SUBNORMAL
-    · have := C18_below_range_f32 c bc hes hn (by rw [he]; exact h1) (by rw [he]; exact h2) (by rw [he]; exact hbelow)
-      rw [he, hf] at this; exact this
-    · have hne : ((e : Nat) : Int) - 127 ≠ c.MAX_EXP := by
-        simp [h255] at r2
-        exact r2
-      have htop : ¬ (((e : Nat) : Int) - 127 = c.MAX_EXP - 1 ∧ f / 2 ^ (23 - c.fbits) = 2 ^ c.fbits - 1) := by
-        rintro ⟨t1, t2⟩
-        simp [h255, t1, t2] at r3
-      have := C18_encloses_partial_f32 c bc hes hn hw hW hst hsr (by rw [he]; exact h1) (by rw [he]; exact h2)
-        (by rw [he]; omega) (by rw [he]; omega) (by rw [he, hf]; exact htop)
-      rw [he, hf] at this; exact this
-
-/-- value of a finite double pattern as the spec source -/
+/-- value of a double pattern as the spec source -/
 def srcOfF64 (bc : Nat) : Src :=
   let e := (bc >>> 52) % 2048
   let f := bc % 2 ^ 52
   if e = 2047 then (if f = 0 then .inf (bc.testBit 63) else .nan)
   else .fin (bc.testBit 63) (dyadic ((if e = 0 then f else f + 2 ^ 52 : Nat) : Int) (((max e 1 : Nat) : Int) - 1023 - 52))
 
-/-- the decidable region of double sources on which areal<…>::operator=(double) is known to be wrong (D13) -/
-def d13RegionF64 (c : Model.Cfg) (bc : Nat) : Bool :=
-  let e := (bc >>> 52) % 2048
-  let f := bc % 2 ^ 52
-  let exponent : Int := (e : Int) - 1023
-  (e == 2047 && f != 0 && f != 1 && f != 0x8000000000000) ||                                  -- unrecognised NaN payload
-  (e != 2047 && exponent == c.MAX_EXP) ||                                              -- exponent == MAX_EXP
-  (e != 2047 && exponent == c.MAX_EXP - 1 && f / 2 ^ (52 - c.fbits) == 2 ^ c.fbits - 1) ||   -- all-ones corner
-  (e == 0 && f != 0 && decide (c.MIN_EXP_SUBNORMAL ≤ exponent))                       -- subnormal source not flushed
+/-- C18 for float sources, everything at once: EVERY float (finite, ±0, ±inf, NaN with any payload, subnormal, out of range)
+    is enclosed by its conversion, for every areal<nbits,es,bt> with nbits ≤ 32 whose limb store covers nbits. -/
+theorem C18_encloses_every_f32 (c : Model.Cfg) (bc : Nat)
+    (hes : 1 ≤ c.es) (hn : c.es + 3 ≤ c.nbits) (hw : 1 ≤ c.w) (hW : c.nbits ≤ 32)
+    (hst : c.nrBlocks = 1 ∨ c.nrBlocks ≤ 33 / c.w) :
+    encloses (specCfg c) (srcOfF32 bc) (Model.assignF32 c bc) = true := by
+  obtain ⟨s1, s2, s3⟩ := C18_specials_f32 c hes hn bc
+  have hsub := C18_subnormal_source_f32 c bc hes hn hw hW hst
+  have hnor := C18_encloses_normal_f32 c bc hes hn hw hW hst
+  unfold srcOfF32
+  have helt : (bc >>> 23) % 256 < 256 := Nat.mod_lt _ (by norm_num)
+  generalize he : (bc >>> 23) % 256 = e at *
+  generalize hf : bc % 2 ^ 23 = f at *
+  by_cases h255 : e = 255
+  · simp only [h255, if_true]
+    by_cases hf0 : f = 0
+    · simp only [hf0, if_true]; exact s1 h255 hf0
+    · simp only [hf0, if_false]; exact s2 h255 hf0
+  simp only [h255, if_false]
+  by_cases h0 : e = 0
+  · by_cases hf0 : f = 0
+    · have := s3 h0 hf0
+      simpa [h0, hf0, dyadic_def] using this
+    · have := hsub h0 hf0
+      simpa [h0] using this
+  · have h1 : 1 ≤ e := Nat.one_le_iff_ne_zero.mpr h0
+    have hmax1 : max e 1 = e := by omega
+    simp only [h0, if_false, hmax1]
+    exact hnor h1 (by omega)
 
-/-- C18 for double sources, everything at once: EVERY double outside the decidable D13 region is enclosed by its conversion,
-    for every areal<nbits,es,bt> with fbits ≤ 50, nbits ≤ 64 (specials included: ±0, ±inf, the recognised NaNs). -/
-theorem C18_encloses_outside_D13_f64 (c : Model.Cfg) (bc : Nat)
+/-- C18 for double sources, everything at once (nbits ≤ 64) -/
+theorem C18_encloses_every_f64 (c : Model.Cfg) (bc : Nat)
     (hes : 1 ≤ c.es) (hn : c.es + 3 ≤ c.nbits) (hw : 1 ≤ c.w) (hW : c.nbits ≤ 64)
-    (hst : c.nrBlocks = 1 ∨ c.nrBlocks ≤ 65 / c.w) (hsr : c.fbits + 1 < 52)
-    (hreg : d13RegionF64 c bc = false) :
+    (hst : c.nrBlocks = 1 ∨ c.nrBlocks ≤ 65 / c.w) :
     encloses (specCfg c) (srcOfF64 bc) (Model.assignF64 c bc) = true := by
-  unfold d13RegionF64 at hreg
-  simp only [Bool.or_eq_false_iff, Bool.and_eq_false_iff] at hreg
-  obtain ⟨⟨⟨r1, r2⟩, r3⟩, r4⟩ := hreg
   obtain ⟨s1, s2, s3⟩ := C18_specials_f64 c hes hn bc
+  have hsub := C18_subnormal_source_f64 c bc hes hn hw hW hst
+  have hnor := C18_encloses_normal_f64 c bc hes hn hw hW hst
   unfold srcOfF64
   have helt : (bc >>> 52) % 2048 < 2048 := Nat.mod_lt _ (by norm_num)
   generalize he : (bc >>> 52) % 2048 = e at *
   generalize hf : bc % 2 ^ 52 = f at *
   by_cases h2047 : e = 2047
-  · -- inf / NaN
-    simp only [h2047, if_true]
+  · simp only [h2047, if_true]
     by_cases hf0 : f = 0
     · simp only [hf0, if_true]; exact s1 h2047 hf0
-    · simp only [hf0, if_false]
-      have : f = 1 ∨ f = 0x8000000000000 := by
-        simp [h2047, hf0] at r1
-        exact r1
-      exact s2 h2047 this
+    · simp only [hf0, if_false]; exact s2 h2047 hf0
   simp only [h2047, if_false]
   by_cases h0 : e = 0
   · by_cases hf0 : f = 0
-    · -- ±0
-      have := s3 h0 hf0
+    · have := s3 h0 hf0
       simpa [h0, hf0, dyadic_def] using this
-    · -- subnormal source: must be flushed
-      have hlo : ((0 : Nat) : Int) - 1023 < c.MIN_EXP_SUBNORMAL := by
-        simp [h0, hf0] at r4
-        omega
-      have hcore : Model.assignF64 c bc = Model.assignCore c 52 1023 64 false (bc.testBit 63) 0 f := by
-        unfold Model.assignF64
-        have hf' : bc % 4503599627370496 = f := by rw [← hf]; norm_num
-        simp [he, hf', h0, hf0]
-      rw [hcore]
-      have k := model_consts c hes
-      have hE2 : 2 ≤ 2 ^ c.es := by
-        calc 2 = 2 ^ 1 := rfl
-          _ ≤ 2 ^ c.es := Nat.pow_le_pow_right (by omega) hes
-      have := assignCore_below_subnormal_src c 52 1023 64 false (bc.testBit 63) f hes hn
-        (by rw [← hf]; exact Nat.mod_lt _ (Nat.two_pow_pos _)) (Nat.pos_of_ne_zero hf0)
-        (by obtain ⟨k1, k2, k3⟩ := k; omega) hlo
-      simpa [h0, dyadic_def] using this
-  · -- normal source
-    have h1 : 1 ≤ e := Nat.one_le_iff_ne_zero.mpr h0
-    have h2 : e ≤ 2046 := by omega
+    · have := hsub h0 hf0
+      simpa [h0] using this
+  · have h1 : 1 ≤ e := Nat.one_le_iff_ne_zero.mpr h0
     have hmax1 : max e 1 = e := by omega
     simp only [h0, if_false, hmax1]
-    have hsrc : (((e : Nat) : Int) - 1023 - 52) = (((e : Nat) : Int) - 1023 - 52) := rfl
-    by_cases habove : c.MAX_EXP < ((e : Nat) : Int) - 1023
-    · have := C18_above_range_f64 c bc hes hn (by rw [he]; exact h1) (by rw [he]; exact h2) (by rw [he]; exact habove)
-      rw [he, hf] at this; exact this
-    by_cases hbelow : ((e : Nat) : Int) - 1023 < c.MIN_EXP_SUBNORMAL
-    · have := C18_below_range_f64 c bc hes hn (by rw [he]; exact h1) (by rw [he]; exact h2) (by rw [he]; exact hbelow)
-      rw [he, hf] at this; exact this
-    · have hne : ((e : Nat) : Int) - 1023 ≠ c.MAX_EXP := by
-        simp [h2047] at r2
-        exact r2
-      have htop : ¬ (((e : Nat) : Int) - 1023 = c.MAX_EXP - 1 ∧ f / 2 ^ (52 - c.fbits) = 2 ^ c.fbits - 1) := by
-        rintro ⟨t1, t2⟩
-        simp [h2047, t1, t2] at r3
-      have := C18_encloses_partial_f64 c bc hes hn hw hW hst hsr (by rw [he]; exact h1) (by rw [he]; exact h2)
-        (by rw [he]; omega) (by rw [he]; omega) (by rw [he, hf]; exact htop)
-      rw [he, hf] at this; exact this
+    exact hnor h1 (by omega)
+
+/-- the limb store covers the encoding for the block types uint8_t / uint16_t / uint32_t (and uint64_t for double) -/
+theorem store_covers (c : Model.Cfg) (W : Nat) (hW : c.nbits ≤ W) (hn : 1 ≤ c.nbits) (hw : c.w = 8 ∨ c.w = 16 ∨ c.w = 32 ∨ c.w = 64)
+    (hWv : W = 32 ∨ W = 64) : c.nrBlocks = 1 ∨ c.nrBlocks ≤ (W + 1) / c.w := by
+  unfold Model.Cfg.nrBlocks
+  rcases hWv with rfl | rfl <;> rcases hw with h | h | h | h <;> rw [h] <;> omega
+
+/-- **C18, the property as stated**: EVERY float is enclosed by its areal conversion, for every areal<nbits,es,bt> with
+    nbits ≤ 32 and bt ∈ {uint8_t, uint16_t, uint32_t}.  (This statement was refuted for the pinned code — D13 — and holds for
+    the repaired code.) -/
+theorem C18_encloses_full :
+    ∀ (c : Model.Cfg) (bc : Nat), 1 ≤ c.es → c.es + 3 ≤ c.nbits → c.nbits ≤ 32 → c.w ∈ [8, 16, 32] → bc < 2 ^ 32 →
+      encloses (specCfg c) (srcOfF32 bc) (Model.assignF32 c bc) = true := by
+  intro c bc hes hn hW hw _
+  have hw' : c.w = 8 ∨ c.w = 16 ∨ c.w = 32 ∨ c.w = 64 := by
+    simp only [List.mem_cons, List.mem_nil_iff, or_false] at hw; omega
+  exact C18_encloses_every_f32 c bc hes hn (by omega) hW (store_covers c 32 hW (by omega) hw' (Or.inl rfl))
+
+/-- **C18 for double sources**: EVERY double is enclosed by its areal conversion, nbits ≤ 64, bt ∈ {uint8_t … uint64_t} -/
+theorem C18_encloses_full_f64 :
+    ∀ (c : Model.Cfg) (bc : Nat), 1 ≤ c.es → c.es + 3 ≤ c.nbits → c.nbits ≤ 64 → c.w ∈ [8, 16, 32, 64] → bc < 2 ^ 64 →
+      encloses (specCfg c) (srcOfF64 bc) (Model.assignF64 c bc) = true := by
+  intro c bc hes hn hW hw _
+  have hw' : c.w = 8 ∨ c.w = 16 ∨ c.w = 32 ∨ c.w = 64 := by
+    simp only [List.mem_cons, List.mem_nil_iff, or_false] at hw; omega
+  exact C18_encloses_every_f64 c bc hes hn (by omega) hW (store_covers c 64 hW (by omega) hw' (Or.inr rfl))
+
+/-! ### the former D13 counterexamples, now positive at the same witnesses -/
+
+-- float 8.0 into areal<6,2>: exponent 3 = MAX_EXP ↦ (maxpos, ∞) = 0b011101 (was 0x20: the biased exponent spilled into the sign bit)
+theorem C18_exp_eq_MAX_EXP_witness :
+    Model.assignF32 ⟨6, 2, 8⟩ 0x41000000 = 0x1d ∧
+    encloses ⟨6, 2⟩ (.fin false 8) (Model.assignF32 ⟨6, 2, 8⟩ 0x41000000) = true := by decide +kernel
+
+-- float 7.0 = 1.11b·2^2 into areal<6,2>: exponent 2 = MAX_EXP-1 and both fraction bits set ↦ (maxpos, ∞) (was the +inf pattern 0x1e)
+theorem C18_top_binade_allones_witness :
+    Model.assignF32 ⟨6, 2, 8⟩ 0x40e00000 = 0x1d ∧
+    encloses ⟨6, 2⟩ (.fin false 7) (Model.assignF32 ⟨6, 2, 8⟩ 0x40e00000) = true := by decide +kernel
+
+-- NaN with payload 0x200000 (numeric_limits<float>::signaling_NaN) ↦ the signalling NaN encoding (was converted as a number)
+theorem C18_nan_payload_witness :
+    Model.assignF32 ⟨6, 2, 8⟩ 0x7fa00000 = 0x3f ∧
+    encloses ⟨6, 2⟩ .nan (Model.assignF32 ⟨6, 2, 8⟩ 0x7fa00000) = true := by decide
+
+-- the subnormal float 2^-127 into areal<12,8>: the subnormal encoding 0.10b·2^-126 (was the encoding of 2^-128)
+theorem C18_subnormal_source_witness :
+    Model.assignF32 ⟨12, 8, 8⟩ 0x00400000 = 0x4 ∧
+    encloses ⟨12, 8⟩ (srcOfF32 0x00400000) (Model.assignF32 ⟨12, 8, 8⟩ 0x00400000) = true := by decide +kernel
+
+-- target fraction as wide as the source minus one bit (areal<32,8>, fbits = 22): the dropped bit is reflected in the ubit
+theorem C18_target_not_narrower_witness :
+    Model.assignF32 ⟨32, 8, 8⟩ 0x4b000001 = 0x4b000001 ∧
+    encloses ⟨32, 8⟩ (srcOfF32 0x4b000001) (Model.assignF32 ⟨32, 8, 8⟩ 0x4b000001) = true := by decide +kernel
 
 /-! ### non-vacuity -/
 
--- areal<8,3,uint8_t>: float 1.3125 (0x3fa80000) has one set bit below the 4-bit target fraction: ubit set, and the
--- hypotheses of C18_encloses_partial_f32 hold
-example : Model.assignF32 ⟨8, 3, 8⟩ 0x3fa80000 = 0x35 ∧
-    (1 ≤ (0x3fa80000 >>> 23) % 256 ∧ (0x3fa80000 >>> 23) % 256 ≤ 254 ∧
-     (⟨8, 3, 8⟩ : Model.Cfg).MIN_EXP_SUBNORMAL ≤ (((0x3fa80000 >>> 23) % 256 : Nat) : Int) - 127 ∧
-     (((0x3fa80000 >>> 23) % 256 : Nat) : Int) - 127 < (⟨8, 3, 8⟩ : Model.Cfg).MAX_EXP) := by decide
+-- areal<8,3,uint8_t>: float 1.3125 (0x3fa80000) has one set bit below the 4-bit target fraction: ubit set
+example : Model.assignF32 ⟨8, 3, 8⟩ 0x3fa80000 = 0x35 := by decide
 -- subnormal target: areal<8,3>: 2^-4·1.5 lies in the subnormal range (MIN_EXP_NORMAL = -2)
 example : Model.assignF32 ⟨8, 3, 8⟩ 0x3dc00000 = 0x06 := by decide
 -- two blocks: areal<12,4,uint8_t>
 example : Model.assignF64 ⟨12, 4, 8⟩ 0x3ff8000000000001 = 0x3c1 := by decide
--- the unified theorems are not vacuous: ordinary inputs are outside the D13 region …
-example : d13RegionF32 ⟨8, 3, 8⟩ 0x3fa80000 = false ∧ d13RegionF64 ⟨12, 4, 8⟩ 0x3ff8000000000001 = false := by decide
--- … and the witnesses of the counterexamples are inside it
-example : d13RegionF32 ⟨6, 2, 8⟩ 0x41000000 = true ∧ d13RegionF32 ⟨6, 2, 8⟩ 0x40e00000 = true ∧
-    d13RegionF32 ⟨6, 2, 8⟩ 0x7fa00000 = true ∧ d13RegionF32 ⟨12, 8, 8⟩ 0x00400000 = true := by decide
+-- wider target (left shift): areal<32,5> (fbits = 25) from 1 + 2^-23
+example : Model.assignF32 ⟨32, 5, 8⟩ 0x3f800001 = 0x3c000008 := by decide
+-- subnormal double into areal<16,11>: 2^-1025 + 2^-1074 ↦ fraction 001 with the ubit set
+example : Model.assignF64 ⟨16, 11, 8⟩ 0x0002000000000001 = 0x3 := by decide
+-- the hypotheses of the full theorems are satisfiable: areal<6,2,uint8_t>, areal<64,11,uint32_t>
+example : (1 ≤ (⟨6, 2, 8⟩ : Model.Cfg).es ∧ (⟨6, 2, 8⟩ : Model.Cfg).es + 3 ≤ (⟨6, 2, 8⟩ : Model.Cfg).nbits ∧
+    (⟨6, 2, 8⟩ : Model.Cfg).nbits ≤ 32 ∧ (⟨6, 2, 8⟩ : Model.Cfg).w ∈ [8, 16, 32]) ∧
+    ((⟨64, 11, 32⟩ : Model.Cfg).nbits ≤ 64 ∧ (⟨64, 11, 32⟩ : Model.Cfg).w ∈ [8, 16, 32, 64]) := by decide
